@@ -136,6 +136,19 @@ CHECKS["C06"] = dict(
          "indices within 0..FarSum. IndexError under NUMBA_BOUNDSCHECK=1 is a violation.",
     note="Symmetric instances only (as the property). n<=5 exhaustive, else sampled seeds/budgets.")
 
+CHECKS["C18"] = dict(
+    category="model_checking", design_ref="DESIGN.md section 2 (C18)",
+    technique="TSPLIB explicit formats as token streams and their inverse, EUC_2D/CEIL_2D/ATT as exact integer "
+              "predicates in TLA+; TLC checks mutual consistency; the real loader/writer run on all small matrices x "
+              "formats x wrappings, random cases and shipped tours, judged by TLC",
+    text="Tsplib.tla defines TokensOf/MatrixFrom for FULL_MATRIX, UPPER_ROW, LOWER_DIAG_ROW, UPPER_DIAG_ROW and the three "
+         "distance predicates; MC_Tsplib checks tokens->matrix inverts matrix->tokens and each predicate fixes exactly "
+         "one distance. The real _from_stream loads every scope matrix in every format with every (sampled beyond 64) "
+         "wrapping; random wrappings with blank lines; to_stream->_from_stream (name, size, symmetry flag, matrix, and "
+         "the written tokens are in the declared format); integer and quarter-valued points incl. rounding-boundary "
+         "pairs; all shipped optimal tours are permutations whose loaded edge weights sum to the documented optimum.",
+    note="GEO only through the shipped GEO instances' tours (no transcendental functions in TLA+). Weights < 2^31.")
+
 NOT_YET = {
 }
 
